@@ -163,6 +163,9 @@ static void ransac_case(vh::Ctx & c, vh::Rng & r, const char * tname)
   VecL t = random_unit(r, D) * (LD)(r.coin(0.1) ? 0.5 : r.uni(0, 0.5));
   PointSet<P> Sx(n), Tg(n);
   std::vector<Correspondence> C(n);
+  const bool coherent = nout > 0 && r.coin(0.35);
+  const VecL common_dir = random_unit(r, D);
+  const LD common_len = sigma * r.uni(10.0, 50.0) * 1.001;
   std::vector<int> order(n);
   for (int i = 0; i < n; ++i) {order[i] = i;}
   for (int i = n; i > 1; --i) {std::swap(order[i - 1], order[r.range(0, i - 1)]);}     // outliers anywhere in the list
@@ -171,7 +174,11 @@ static void ransac_case(vh::Ctx & c, vh::Rng & r, const char * tname)
     for (int k = 0; k < D; ++k) {s(k) = r.uni(-10, 10);}
     VecL q = R * s + t;
     for (int k = 0; k < D; ++k) {q(k) += 0.3 * sigma * r.normal() / std::sqrt((double)D);}
-    if (order[i] < nout) {q += random_unit(r, D) * (LD)(sigma * r.uni(10.0, 30.0) * 1.001);}
+    if (order[i] < nout) {
+      // gross outliers: independent directions, or (coherent mode) one common displacement, i.e. a
+      // second mutually consistent rigid motion competing with the true one
+      q += (coherent ? common_dir * common_len : VecL(random_unit(r, D) * (LD)(sigma * r.uni(10.0, 30.0) * 1.001)));
+    }
     Sx[i] = make_point<P>(s); Tg[i] = make_point<P>(q);
     C[i] = Correspondence(i, i);
   }
@@ -191,11 +198,12 @@ static void ransac_case(vh::Ctx & c, vh::Rng & r, const char * tname)
         {"is_float", (double)(sizeof(S) == 4)}, {"homogeneous", (double)Tr<P>::HOMOGENEOUS}};
     };
   auto wit = [&]() {
-      return vh::J().s("part", "ransac").s("type", tname).f("pairs", n).f("sigma", sigma).f("outliers", nout)
+      return vh::J().s("part", "ransac").s("type", tname).f("pairs", n).f("sigma", sigma).f("outliers", nout).boolean("outliers_share_one_displacement", coherent)
              .f("angle", ang).raw("t", vh::jvec(t)).boolean("estimateModel_returned", ok).f("frobenius_error", err)
              .f("consensus_rmse", rmse).str();
     };
   c.cat(std::string("ransac_") + tname);
+  if (coherent) {c.cat("ransac_coherent_outlier_group");}
   c.cat(nout == 0 ? "ransac_no_outliers" : ((double)nout / n < 0.05 ? "ransac_outliers_lt_5pct" : "ransac_outliers_5_to_30pct"));
   c.distinct(vh::hash_doubles({2.0, (double)D, (double)n, sigma, (double)nout, (double)ang, (double)t(0)}), (double)nout / n >= 0.05);
   c.sample(std::string("ransac_") + (D == 2 ? "2D" : "3D"), wit);
@@ -224,5 +232,5 @@ static void one_case(vh::Ctx & c, uint64_t idx)
 
 int main(int argc, char ** argv)
 {
-  return vh::run(argc, argv, "C06", {700, 400000}, one_case);
+  return vh::run(argc, argv, "C06", {4000, 400000}, one_case);
 }
